@@ -246,6 +246,12 @@ func drawPool(rt *rapid.T, cold bool) *opPool {
 		default:
 			s = gen.UString(6).Draw(rt, "ustr")
 		}
+		if len(s) > 4096 {
+			// plans repeat their arguments across many calls (and goroutines): keep them small;
+			// huge inputs are exercised by the single-call checks
+			s = strings.Join(ref.Words(rl, gen.ValidIndices().Draw(rt, "valid-instead")), rl.Sep())
+			home = int64(implLang[rl])
+		}
 		p.texts = append(p.texts, s)
 		p.textLang = append(p.textLang, home)
 	}
